@@ -6,6 +6,7 @@ For each change k: (1) change + demo applied: the 33 baseline tests pass and at 
 (2) demo only: everything passes.  Runs in the given worktree (its target dir is reused)."""
 import json, os, re, subprocess, sys, shutil
 wt, prop = sys.argv[1], sys.argv[2]
+offset = int(sys.argv[3]) if len(sys.argv) > 3 else 0
 VERIF = '/verif'
 base = set(n.split('::', 1)[1] for n in json.load(open('/root/.vp/BASELINE.json'))['stable_pass'])
 env = dict(os.environ, CARGO_NET_OFFLINE='true', CARGO_TARGET_DIR=os.path.join(wt, 'target'))
@@ -49,7 +50,7 @@ for k in (1, 2, 3):
     out[k] = {'confirmed': ok, 'with_change': {'baseline_not_ok': base_fail1, 'demo_failed': demo_fail1, 'n_tests': len(res1)},
               'without_change': {'failed': fail2, 'n_tests': len(res2)}}
     if ok:
-        d = os.path.join(VERIF, 'seeded', '%s-%d' % (prop, k))
+        d = os.path.join(VERIF, 'seeded', '%s-%d' % (prop, k + offset))
         os.makedirs(d, exist_ok=True)
         shutil.copy(ch, os.path.join(d, 'patch.diff'))
         shutil.copy(demo, os.path.join(d, 'demo.diff'))
